@@ -35,6 +35,15 @@ type respCall struct {
 type respRecorder struct {
 	calls []respCall
 	fail  map[string]bool // "kind:key" -> the setter reports an error
+	// rawSlices: the very slices handed to SetRawBody - a response object keeps what it was given until
+	// the response is written out, which may be after later conversions
+	rawSlices [][]byte
+}
+
+// heldBody is a response body delivered by an earlier conversion and not written out yet.
+type heldBody struct {
+	b, snap []byte
+	env     string
 }
 
 var errSetter = errors.New("simulated ResponseSetter failure")
@@ -50,7 +59,10 @@ func (r *respRecorder) rec(kind, key, val string) error {
 func (r *respRecorder) SetStatusCode(c int) error   { return r.rec("status", "", strconv.Itoa(c)) }
 func (r *respRecorder) SetHeader(k, v string) error { return r.rec("header", k, v) }
 func (r *respRecorder) SetCookie(k, v string) error { return r.rec("cookie", k, v) }
-func (r *respRecorder) SetRawBody(b []byte) error   { return r.rec("raw_body", "", string(b)) }
+func (r *respRecorder) SetRawBody(b []byte) error {
+	r.rawSlices = append(r.rawSlices, b)
+	return r.rec("raw_body", "", string(b))
+}
 func (r *respRecorder) delivered() (out []respCall) {
 	for _, c := range r.calls {
 		if c.OK {
@@ -632,6 +644,7 @@ func runC17Resp(w *W, flavour string) {
 	var firstJSON []byte
 	var firstCalls string
 	firstErr := false
+	var held []heldBody
 	for k := 0; k < nenv; k++ {
 		api := t.Intn(4, "r.api") // 0 BinaryConv.Do 1 BinaryConv.DoInto 2 HTTPConv.Do 3 HTTPConv.DoInto
 		if !o.Mapping || rawBodyField || sch.KindsUsed[hkRawBody] {
@@ -721,6 +734,17 @@ func runC17Resp(w *W, flavour string) {
 		w.opFacts = nil
 		if !bytes.Equal(in.B, input) {
 			w.Failf("input-modified", facts, "conversion modified its input (env %s)", envs)
+		}
+		// responses of earlier conversions that have not been written out yet still hold their bodies
+		for _, hb := range held {
+			if !bytes.Equal(hb.b, hb.snap) {
+				w.Failf("response-body-changed-later", facts, "the body delivered to an earlier response (%s) changed during a later conversion (%s)\n was: %s\n now: %s", hb.env, envs, clip(hb.snap, 200), clip(hb.b, 200))
+			}
+		}
+		if api == 2 && err == nil && len(rec.rawSlices) > 0 {
+			b := rec.rawSlices[len(rec.rawSlices)-1]
+			held = append(held, heldBody{b, append([]byte{}, b...), envs})
+			w.Count("resp_bodies_held")
 		}
 		calls := rec.delivered()
 		if api >= 2 && err == nil {
